@@ -112,9 +112,15 @@ func anonVariant() (k, h string) {
 	x0, x1 := m.Scalar().Pick(r), m.Scalar().Pick(r)
 	set := anon.Set{m.Point().Mul(x0, nil), m.Point().Mul(x1, nil)}
 	msg := []byte("0123456789abcdef")
-	ct, err := anon.Encrypt(m, msg, set)
-	if err != nil {
-		return
+	var ct []byte
+	if kc.Recover(func() string {
+		var err error
+		if ct, err = anon.Encrypt(m, msg, set); err != nil {
+			return "err"
+		}
+		return "ok"
+	}) != "ok" || len(ct) != m.PointLen()+2*m.ScalarLen()+len(msg)+16 {
+		return // the cases themselves report a scheme that cannot encrypt
 	}
 	hdr := m.PointLen() + 2*m.ScalarLen()
 	f := append([]byte{}, ct...)
